@@ -12,7 +12,7 @@
 (* post state and judges the step with the operators of RTWorklist,        *)
 (* RTLabware and RTRobot.  Judging never blocks (see RTJudge).             *)
 (***************************************************************************)
-EXTENDS RTWorklist, RTFile, RTJudge
+EXTENDS RTWorklist, RTFile, RTDilution, RTJudge
 
 Data   == JsonDeserialize(IOEnv.TRACE_FILE)
 Traces == Data.traces
@@ -460,6 +460,26 @@ JudgeEvoWash(tr, T, ev) ==
   }
 
 (***************************************************************************)
+(* DilutionPlan.to_worklist (C14): the transfers it performs are ordinary  *)
+(* events; this summary event carries the plan and what was consumed.      *)
+(***************************************************************************)
+JudgeDilution(tr, T, ev) ==
+  LET a == ev.a  ok == ev.out = "ok"
+      planok == a.planned /\ a.Robs = a.R /\ a.Cobs = a.C /\ PlanOrdered(a) /\ PlanWhole(a) /\ PlanBounds(a) /\ PlanBudget(a)
+      used(k, i) == a.before[k][i] - a.after[k][i]
+  IN {
+    Cl("C14.exec.ok", planok /\ a.roomy, ok),
+    Cl("C14.exec.conc", planok /\ ok /\ a.small /\ a.fsup /\ (\A i \in 1..Len(a.instr) : a.instr[i].dsteps <= 2),
+       \A r \in 1..a.R : \A c \in 1..a.C :
+          RMul(a.frac[r][c], a.stock) = ImpliedConc(a, r, c)),
+    Cl("C14.exec.stock", planok /\ ok, used(a.stocklw, a.stockcol + 1) = a.vstock * a.upm),
+    Cl("C14.exec.diluent", planok /\ ok,
+       LET allv == SumSeq([i \in 1..Len(a.instr) |-> SumSeq(a.instr[i].v)]) IN
+       /\ used(a.diluentlw, a.diluentcol + 1) <= a.vdiluent * a.upm
+       /\ used(a.diluentlw, a.diluentcol + 1) = (a.R * SumSeq(a.vmax) - allv) * a.upm)
+  }
+
+(***************************************************************************)
 (* Saving (C17): save(path), leaving the with-block, entering it, str().   *)
 (***************************************************************************)
 CpLines(recs) == [i \in 1..Len(recs) |-> recs[i].cp]
@@ -489,6 +509,7 @@ JudgeEvent(tr, T, ev) ==
           [] ev.op = "emit" -> JudgeEmit(tr, T, ev)
           [] ev.op \in {"evo_aspirate", "evo_dispense"} -> JudgeEvo(tr, T, ev)
           [] ev.op = "evo_wash" -> JudgeEvoWash(tr, T, ev)
+          [] ev.op = "dilution" -> JudgeDilution(tr, T, ev)
           [] OTHER -> {Cl("machinery.unknown_op", TRUE, FALSE)})
   \cup (IF tr.pair THEN JudgePair(tr, ev) ELSE {})
 
